@@ -24,3 +24,4 @@ def run(ck):
     region.r7_17_translation_amount_unchanged(ck, P)
     alloc.r7_result_tested(ck, P, 'C07-R18', only_units={'pixman-region16.c', 'pixman-region32.c'}, floor=8)   # a failure swallowed in the bitmap import starts a fresh rectangle list: a non-empty region holding only the later scanlines
     region.r7_19_bitmap_read_only_with_pixels(ck, P)
+    region.r7_20_partial_word_read_needs_partial_word(ck, P, 'C07-R20')
